@@ -91,6 +91,9 @@ MC.update({
               "MaxNow": "20", "MaxPid": "9", "MaxFrames": "24"},
              {"Configs": "deep_Configs", "Requests": "deep_Requests", "DieStatuses": "st_three"},
              ["-simulate", "num=%(num)d", "-depth", "400"]),
+    # max_age: two expiries, one request, one death
+    "c03age": ({"MaxReq": "1", "MaxDie": "1", "ReqUntil": "10", "DieUntil": "10", "MaxNow": "18", "MaxPid": "7"},
+               {"Configs": "c03age_Configs", "Requests": "c03age_Requests"}),
     # on_demand: socket events (arrival, acceptance, arrival), one request, one death
     "c02od": ({"MaxSock": "3", "MaxReq": "1", "MaxDie": "1", "ReqUntil": "6", "DieUntil": "7", "MaxNow": "10", "MaxPid": "6"},
               {"Configs": "c02od_Configs", "Requests": "c02od_Requests"}),
@@ -106,8 +109,8 @@ PROPS = {
             "profiles": {"default": (100, 2000), "count": (100, 3000)}, "conf": {"conf_full": (60, 800)}},
     "C02": {"mc_quick": ["c02q", "c02od"], "mc_thorough": ["c02", "c02od", "c02_deep", "deep"],
             "profiles": {"default": (80, 2000), "stop": (120, 3000), "ondemand": (50, 1200)}, "conf": {"conf_full": (40, 600), "conf_pat": (30, 400), "conf_od": (20, 300)}},
-    "C03": {"mc_quick": ["c03q"], "mc_thorough": ["c03", "deep"],
-            "profiles": {"default": (60, 1500), "term": (140, 3500)}, "conf": {"conf_full": (40, 600), "conf_kids": (30, 400)}},
+    "C03": {"mc_quick": ["c03q"], "mc_thorough": ["c03", "c03age", "deep"],
+            "profiles": {"default": (60, 1500), "term": (140, 3500)}, "conf": {"conf_full": (40, 600), "conf_kids": (30, 400), "conf_age": (20, 300)}},
     "C04": {"mc_quick": ["c04"], "mc_thorough": ["c04", "c02", "deep"],
             "profiles": {"default": (80, 2000), "acct": (120, 3000)}, "conf": {"conf_full": (60, 800)}},
     "C05": {"mc_quick": ["c05q"], "mc_thorough": ["c05", "deep"],
